@@ -29,6 +29,7 @@ var redirectTable = map[string]string{
 	"github.com/jhillyerd/enmime/v2.ReadEnvelope":     "ModelEnmimeReadEnvelope",
 	"fmt.Fprint":                                      "ModelFprint",
 	"sort.Slice":                                      "ModelSortSlice",
+	"sort.SliceStable":                                "ModelSortSlice",
 	"github.com/kelseyhightower/envconfig.Process":    "ModelEnvconfigProcess",
 	// file-system model (harness/zzvrf/vfs.go)
 	"os.Stat":                        "ModelOsStat",
